@@ -514,3 +514,13 @@ func VerifHarness_C13_precond() {
 	vfReach("evaluated")
 	vfReach("end")
 }
+
+// C19 entries: the non-evaluating option sets only
+func VerifHarness_C19_schedule() { vfOptN = 2; VerifHarness_C13_schedule() }
+func VerifHarness_C19_env()      { vfOptN = 2; VerifHarness_C13_env() }
+func VerifHarness_C19_tags()     { vfOptN = 2; VerifHarness_C13_tags() }
+func VerifHarness_C19_strings()  { vfOptN = 2; VerifHarness_C13_strings() }
+func VerifHarness_C19_step()     { vfOptN = 2; VerifHarness_C13_step() }
+func VerifHarness_C19_executor() { vfOptN = 2; VerifHarness_C13_executor() }
+func VerifHarness_C19_call()     { vfOptN = 2; VerifHarness_C13_call() }
+func VerifHarness_C19_handlers() { vfOptN = 2; VerifHarness_C13_handlers() }
